@@ -118,6 +118,10 @@ func main() {
 			// a finding of the platform repeat-run part: replayed by its own (plain) binary
 			os.Exit(harness.RunPartBinary("repeat", "-replay", r.Replay))
 		}
+		if err == nil && strings.HasPrefix(f.Signature, "parallel-engine/") {
+			// a finding of the parallel-engine pass: replayed by its own (-race) binary
+			os.Exit(harness.RunPartBinary("prace", "-replay", r.Replay))
+		}
 		if err == nil && json.Unmarshal(data, &f) == nil && len(f.Case.ChoicesB) > 0 {
 			replayPair(r, scs, f.Signature, f.Case)
 		}
@@ -174,13 +178,18 @@ func main() {
 		"observables are taken by the application thread after its last call returned and the engine went idle (T_end), plus the engine time seen when calls return",
 		"memory model: sequential consistency at shim operations; unsynchronised accesses are covered only by the -race pass of C12",
 		"executions that end in one of C12's deadlocks (lost wake-up) produce no outcome and are counted, not judged, here",
-		"parallel-engine clause NOT decided: akita's ParallelEngine runs same-time handlers on free goroutines; its interleaving space is outside bounded exhaustive exploration",
+		"parallel-engine clause NOT decided: akita's ParallelEngine runs same-time handlers on free goroutines; its interleaving space is outside bounded exhaustive exploration. It is only sampled by the supplementary parallel-engine pass (coverage.part_prace: free runs under the race detector)",
 		"host core counts / processes: the controlled scheduler owns every interleaving of the modelled goroutines, so GOMAXPROCS is immaterial inside the model; outside the model they are sampled by the supplementary platform repeat-run part (coverage.part_repeat)",
 	}
 	// SUPPLEMENTARY: the real emulation and timing platforms, every case in 3 separate processes with
 	// GOMAXPROCS 1/3/16, all observables compared across the runs (platlat.RunC05Repeat; plain build,
 	// auxiliary binary <this>-repeat). Its coverage lands under coverage["part_repeat"].
 	r.RunPart("repeat")
+	// SUPPLEMENTARY: the parallel-engine clause. Real timing platform on akita's ParallelEngine (as the
+	// runner's -parallel builds it), free runs under the Go race detector, race reports as signatures and
+	// final device memory against a serial-engine run (platlat.RunC05Prace; auxiliary binary <this>-prace,
+	// plain modfile, -race). Its coverage lands under coverage["part_prace"].
+	r.RunPart("prace")
 	r.Finish()
 }
 
